@@ -217,3 +217,57 @@ Section WithCarrier.
     apply window_le; auto; [apply fpr_sorted, G|]. apply Forall_map_range. intros t. apply tpr_range, G.
   Qed.
 End WithCarrier.
+
+(* ---------- the clauses with their hypotheses spelled out (used by Props/C07.v) ---------- *)
+Section Statements.
+  Variable isD : Q -> Prop.
+  Variable succ pred : Q -> Q.
+  Hypothesis HC : carrier isD succ pred.
+
+  Lemma stmt_full_auc_mw s :
+    pos s <> [] -> neg s <> [] -> (0 <= easy_pos s)%Z -> (0 <= easy_neg s)%Z -> Forall isD (pos s ++ neg s) ->
+    auc succ pred s 0 1 AFpr ATpr == mw s.
+  Proof. intros A B C D HD. exact (full_auc_mw isD succ pred HC s (Build_good s A B C D) HD). Qed.
+
+  Lemma stmt_indep_equal_class ps ns ep en sc ec ec' :
+    ps <> [] -> ns <> [] -> (0 <= ep)%Z -> (0 <= en)%Z -> Forall isD (ps ++ ns) ->
+    auc succ pred (mkScores ps ns ep en sc ec) 0 1 AFpr ATpr == auc succ pred (mkScores ps ns ep en sc ec') 0 1 AFpr ATpr.
+  Proof.
+    intros A B C D HD.
+    rewrite (full_auc_mw isD succ pred HC (mkScores ps ns ep en sc ec) (Build_good (mkScores ps ns ep en sc ec) A B C D) HD).
+    rewrite (full_auc_mw isD succ pred HC (mkScores ps ns ep en sc ec') (Build_good (mkScores ps ns ep en sc ec') A B C D) HD).
+    reflexivity.
+  Qed.
+
+  Lemma stmt_complement_y s lo up :
+    pos s <> [] -> neg s <> [] -> (0 <= easy_pos s)%Z -> (0 <= easy_neg s)%Z -> lo <= up ->
+    auc succ pred s lo up AFpr AFnr == (up - lo) - auc succ pred s lo up AFpr ATpr.
+  Proof. intros A B C D H. exact (complement_y isD succ pred HC s lo up (Build_good s A B C D) H). Qed.
+
+  Lemma stmt_mirror_x s lo up :
+    pos s <> [] -> neg s <> [] -> (0 <= easy_pos s)%Z -> (0 <= easy_neg s)%Z ->
+    auc succ pred s (1 - up) (1 - lo) ATnr ATpr == auc succ pred s lo up AFpr ATpr.
+  Proof. intros A B C D. exact (mirror_x isD succ pred HC s lo up (Build_good s A B C D)). Qed.
+
+  Lemma stmt_swap_axes_full s :
+    pos s <> [] -> neg s <> [] -> (0 <= easy_pos s)%Z -> (0 <= easy_neg s)%Z ->
+    auc succ pred s 0 1 ATpr AFpr == 1 - auc succ pred s 0 1 AFpr ATpr.
+  Proof. intros A B C D. exact (swap_axes_full isD succ pred HC s (Build_good s A B C D)). Qed.
+
+  Lemma stmt_partial_step_area s lo up :
+    wf s -> pos s <> [] -> neg s <> [] -> (0 <= easy_pos s)%Z -> (0 <= easy_neg s)%Z -> Forall isD (pos s ++ neg s) ->
+    (forall p n, In p (pos s) -> In n (neg s) -> ~ p == n) -> 0 <= lo -> lo <= up -> up <= 1 ->
+    auc succ pred s lo up AFpr ATpr == step_area s lo up.
+  Proof. intros W A B C D HD NT. exact (partial_step_area isD succ pred HC s lo up (Build_good s A B C D) W HD NT). Qed.
+
+  Lemma stmt_partial_additive s lo mid up :
+    wf s -> pos s <> [] -> neg s <> [] -> (0 <= easy_pos s)%Z -> (0 <= easy_neg s)%Z -> Forall isD (pos s ++ neg s) ->
+    (forall p n, In p (pos s) -> In n (neg s) -> ~ p == n) -> 0 <= lo -> lo <= mid -> mid <= up -> up <= 1 ->
+    auc succ pred s lo mid AFpr ATpr + auc succ pred s mid up AFpr ATpr == auc succ pred s lo up AFpr ATpr.
+  Proof. intros W A B C D HD NT. exact (partial_additive isD succ pred HC s lo mid up (Build_good s A B C D) W HD NT). Qed.
+
+  Lemma stmt_partial_le_width s lo up :
+    pos s <> [] -> neg s <> [] -> (0 <= easy_pos s)%Z -> (0 <= easy_neg s)%Z -> lo <= up ->
+    0 <= auc succ pred s lo up AFpr ATpr /\ auc succ pred s lo up AFpr ATpr <= up - lo.
+  Proof. intros A B C D H. exact (partial_le_width isD succ pred HC s lo up (Build_good s A B C D) H). Qed.
+End Statements.
